@@ -6,7 +6,6 @@ import (
 	"encoding/json"
 	"fmt"
 	"os"
-	"runtime"
 	"sort"
 	"strings"
 	"time"
@@ -76,7 +75,7 @@ func init() {
 		Level:     "fault_enumeration",
 		Technique: "exhaustive fault enumeration on the real pipeline (instrumented code under the controlled scheduler, fake Postgres, simulated node): every I/O operation of the steps x every fault kind x process death, singly and in pairs; invariant checked in every committed state; differential check of the state after retry against the fault-free run",
 		Rule: "scenarios = growth-only steps for shapes L1 (headers+logs), L2 (logs), T1 (blocks), R1 (blocks+receipts) x (batch,conc) in {1,3}x{1,2}; a step that detects a reorg (3 blocks indexed, then the last 1 or 2 replaced and one appended) for L1 and T1; a step of a dependent integration with reference look-ups (R indexed first). " +
-			"Per scenario: every I/O point after the set-up (each SQL batch incl. begin/commit/COPY/copydone, each JSON-RPC exchange) x {SQL error, SQL connection drop | rpc error, transport error, HTTP 500, truncated body} and process death (all connections dropped, tasks and clients discarded, re-created by loadTasks); quick: every single fault, and every pair on the batch=1 conc=1 scenarios of L1 and T1 (growth and reorg); thorough: every pair. " +
+			"Per scenario: every I/O point after the set-up (each SQL batch incl. begin/commit/COPY/copydone, each JSON-RPC exchange) x {SQL error, SQL connection drop | rpc error, transport error, HTTP 500, truncated body} and process death (all connections dropped, tasks and clients discarded, re-created by loadTasks); quick: every single fault, and every pair on the batch=1 conc=1 scenarios of L1 and T1 (growth, and reorg of the last block); thorough: every pair. " +
 			"An execution is non-trivial when at least one fault or death was injected.",
 		Assumptions: []string{
 			"fake Postgres (h/simpg): a failed statement aborts the transaction, an error on COMMIT rolls back, a dropped connection rolls back; 'reply lost after the server executed the statement' is covered by process death before the next operation, not as a separate connection fault",
@@ -93,9 +92,9 @@ func init() {
 
 func c02Scenarios(thorough bool) []c02Scn {
 	var out []c02Scn
-	// quick: every pair of faults on the single-partition batch=1 log and transaction scenarios, single faults elsewhere
-	nf := func(sh string, batch, conc int) int {
-		if thorough || (batch == 1 && conc == 1 && (sh == "L1" || sh == "T1")) {
+	// quick: every pair of faults on the batch=1 conc=1 scenarios of L1 and T1 (growth, reorg of the last block), single faults elsewhere
+	nf := func(sh string, batch, conc int, fork uint64) int {
+		if thorough || (batch == 1 && conc == 1 && (sh == "L1" || sh == "T1") && fork != 1) {
 			return 2
 		}
 		return 1
@@ -103,19 +102,23 @@ func c02Scenarios(thorough bool) []c02Scn {
 	for _, sh := range []string{"L1", "L2", "T1", "R1"} {
 		for _, b := range []int{1, 3} {
 			for _, c := range []int{1, 2} {
-				out = append(out, c02Scn{Kind: "growth", Shape: sh, Batch: b, Conc: c, NF: nf(sh, b, c)})
+				out = append(out, c02Scn{Kind: "growth", Shape: sh, Batch: b, Conc: c, NF: nf(sh, b, c, 0)})
 			}
 		}
 	}
 	for _, sh := range []string{"L1", "T1"} {
 		for _, fork := range []uint64{2, 1} {
 			for _, c := range []int{1, 2} {
-				out = append(out, c02Scn{Kind: "reorg", Shape: sh, Batch: 1, Conc: c, Fork: fork, NF: nf(sh, 1, c)})
+				out = append(out, c02Scn{Kind: "reorg", Shape: sh, Batch: 1, Conc: c, Fork: fork, NF: nf(sh, 1, c, fork)})
 			}
 		}
 	}
+	if os.Getenv("C02_REORG_BATCH3") != "" {
+		// experiment (not part of the check): the position rolled back by a reorg was recorded by a step of 3 blocks
+		out = []c02Scn{{Kind: "reorg", Shape: "L1", Batch: 3, Conc: 1, Fork: 2, NF: 1}, {Kind: "reorg", Shape: "T1", Batch: 2, Conc: 1, Fork: 2, NF: 1}}
+	}
 	for _, bc := range [][2]int{{1, 1}, {3, 2}} {
-		out = append(out, c02Scn{Kind: "dep", Batch: bc[0], Conc: bc[1], NF: nf("dep", bc[0], bc[1])})
+		out = append(out, c02Scn{Kind: "dep", Batch: bc[0], Conc: bc[1], NF: nf("dep", bc[0], bc[1], 0)})
 	}
 	// heavier scenarios first (round-robin sharding); pair enumerations are split into slices
 	sort.SliceStable(out, func(i, j int) bool { return out[i].NF*10+out[i].Batch > out[j].NF*10+out[j].Batch })
@@ -149,7 +152,7 @@ type c02Prep struct {
 	final    *simeth.Chain
 	test     string // integration under test
 	// reference (fault-free) run
-	refFinal string // canonical final state
+	refFinal string              // canonical final state
 	want     map[string][]string // rendered projection per (integration, chain version, position, size of the referenced table)
 	refSteps int
 	refIO    []string
@@ -492,7 +495,7 @@ func c02Exec(p *c02Prep, ch vrt.Chooser, reference, trace bool) (res c02Result) 
 		checkState(fmt.Sprintf("after %s #%d", cm.Ev.Kind, len(w.Commits)))
 	}
 
-	w.Run(func() {
+	body := func() {
 		conf, err := world.ParseConf(p.conf)
 		if err != nil {
 			w.HarnessErr = err.Error()
@@ -524,6 +527,10 @@ func c02Exec(p *c02Prep, ch vrt.Chooser, reference, trace bool) (res c02Result) 
 		runTo := func(t *world.Task, ig string, head uint64) bool {
 			for i := 0; i < 40; i++ {
 				out, err := t.Step()
+				if w.V.Closing() {
+					return false
+				}
+				w.V.WaitIdle() // a head poller started by the step parks on its ticker
 				if out == "nothing" {
 					if c, has := w.Latest(c02Src, ig); has && c.Num == head {
 						return true
@@ -592,6 +599,10 @@ func c02Exec(p *c02Prep, ch vrt.Chooser, reference, trace bool) (res c02Result) 
 			if w.V.Closing() {
 				return
 			}
+			w.V.WaitIdle() // a head poller started by the step parks on its ticker
+			if w.V.Closing() {
+				return
+			}
 			injected := len(w.Faults)+res.deaths > nf
 			if dead {
 				// process death: every in-memory object is discarded, a new process starts
@@ -656,6 +667,11 @@ func c02Exec(p *c02Prep, ch vrt.Chooser, reference, trace bool) (res c02Result) 
 		if okAfterFault > 0 {
 			res.counts["executions_retry_redid_work"]++
 		}
+	}
+	w.Run(func() {
+		// the steps run in a thread of their own so that a deadlock of the code under test unwinds through its error paths at teardown
+		tt := w.V.GoNamed("task", body)
+		w.V.Join(tt)
 	})
 	res.trans = w.V.Transitions
 	res.faults = append(append([]string{}, w.Faults...), res.faults...)
@@ -708,7 +724,7 @@ func c02Run(c *fw.Ctx) {
 	if c.Thorough() {
 		c.Bound("faults_per_execution", 2)
 	} else {
-		c.Bound("faults_per_execution", "2 on batch=1 conc=1 L1/T1 scenarios (growth, reorg), 1 otherwise")
+		c.Bound("faults_per_execution", "2 on batch=1 conc=1 L1/T1 scenarios (growth, reorg of the last block), 1 otherwise")
 	}
 	for _, s := range scns {
 		if !c.Mine() {
@@ -719,10 +735,11 @@ func c02Run(c *fw.Ctx) {
 		}
 		p, err := c02Prepare(s)
 		if rf, ok := err.(*c02RefFailed); ok {
-			c.Eval(true)
-			c.Outcome("VIOLATION:fault-free:" + rf.v.Class)
-			c.Violation("C02", rf.v.Class, rf.v.Key+":fault-free", fmt.Sprintf("scenario %s, NO fault injected\n%s", s.name(), rf.v.Detail), c02Case{Scn: s})
-			continue
+			// the fault-free run already violates the oracle: report it on its own, then enumerate as usual
+			if s.Part == 0 {
+				c.Violation("C02", rf.v.Class, rf.v.Key+":fault-free", fmt.Sprintf("scenario %s, NO fault injected\n%s", s.name(), rf.v.Detail), c02Case{Scn: s})
+			}
+			err = nil
 		}
 		if err != nil {
 			c.HarnessError("prepare %s: %v", s.name(), err)
@@ -735,31 +752,7 @@ func c02Run(c *fw.Ctx) {
 		}
 		b := c02Bounds(s)
 		st := explore.Explore(b, true, func(r *explore.Run) bool {
-			t0 := time.Now()
-			var stopWD chan struct{}
-			if dbg := os.Getenv("C02_STACKS"); dbg != "" {
-				stopWD = make(chan struct{})
-				go func() {
-					select {
-					case <-stopWD:
-					case <-time.After(400 * time.Millisecond):
-						buf := make([]byte, 1<<20)
-						n := runtime.Stack(buf, true)
-						f, _ := os.OpenFile(dbg, os.O_APPEND|os.O_CREATE|os.O_WRONLY, 0o644)
-						fmt.Fprintf(f, "==== %s\n%s\n", s.name(), buf[:n])
-						f.Close()
-					}
-				}()
-			}
 			res := c02Exec(p, r, false, false)
-			if stopWD != nil {
-				close(stopWD)
-			}
-			if dbg := os.Getenv("C02_SLOW"); dbg != "" && time.Since(t0) > 40*time.Millisecond {
-				f, _ := os.OpenFile(dbg, os.O_APPEND|os.O_CREATE|os.O_WRONLY, 0o644)
-				fmt.Fprintf(f, "%s %v steps=%d faults=%v\n", s.name(), time.Since(t0), res.steps, res.faults)
-				f.Close()
-			}
 			if res.harness != "" {
 				c.HarnessError("scenario %s choices %v: %s", s.name(), r.Trimmed(), res.harness)
 				return false
@@ -809,9 +802,12 @@ func c02Replay(c *fw.Ctx, raw json.RawMessage) {
 	}
 	p, err := c02Prepare(k.Scn)
 	if rf, ok := err.(*c02RefFailed); ok {
-		c.Eval(true)
-		c.Violation("C02", rf.v.Class, rf.v.Key+":fault-free", rf.v.Detail, k)
-		return
+		if len(k.Choices) == 0 {
+			c.Eval(true)
+			c.Violation("C02", rf.v.Class, rf.v.Key+":fault-free", rf.v.Detail, k)
+			return
+		}
+		err = nil
 	}
 	if err != nil {
 		c.HarnessError("prepare: %v", err)
